@@ -593,7 +593,35 @@ func init() {
 		genPar(r, emit, "C10", 40, np)
 		genPar(r, emit, "C08", 100, np)
 		genPar(r, emit, "C09", 100, np)
-	}, map[string]runner{"Hist": runHist, "Conc": runConc, "ConcRoots": runConcRoots, "Find": runFind, "Par": runPar})
+		// two different prints / formattings at the same time
+		genPar2(r, emit, "C10", 20, np)
+		genPar2(r, emit, "C08", 60, np)
+		// long tables with the count margin on, of different lengths but the same margin width
+		for i := 0; i < 9; i++ {
+			mk := func(end int) toks {
+				var t toks
+				t.s("T")
+				t.ints(randDigits(r, r.Range(1, 40)))
+				t.ints(randDigits(r, r.Range(1, 6)))
+				t.i(1)
+				t.i(-1)
+				t.i(-1)
+				t.i(1)
+				t.i(0)
+				t.i(end)
+				t.i(r.Pick([]int{10, 50}))
+				t.i(r.Pick([]int{0, 5, 10}))
+				t.bool(true)
+				t.i('.')
+				t.bool(true)
+				t.bool(false)
+				t.i(0)
+				return t
+			}
+			a, b := mk(r.Range(1100, 3000)), mk(r.Range(1100, 3000))
+			emit(Case{Ver: allVers[i%3], Op: "Par2", Args: append(append(toks{"C10", "Sprint", itoa(len(a))}, a...), b...)})
+		}
+	}, map[string]runner{"Hist": runHist, "Conc": runConc, "ConcRoots": runConcRoots, "Find": runFind, "Par": runPar, "Par2": runPar2})
 	register("C06", func(tier string, r *Rng, emit func(Case)) {
 		n := 600
 		if tier == "thorough" {
